@@ -944,9 +944,7 @@ class PyFat(object):
             if self.bpb_header["BPB_FATSz16"] > 0 else FAT32BootSectorHeader()
         self.bpb_header.parse_header(boot_sector)
 
-        # Determine FAT type
         self._fat_size = self._get_fat_size_count()
-        self.fat_type = self.__determine_fat_type()
 
         # Calculate root directory sectors and starting point of root directory
         root_entries = self.bpb_header["BPB_RootEntCnt"]
@@ -962,6 +960,9 @@ class PyFat(object):
         # Calculate first data sector
         self.first_data_sector = (rsvd_secs + (num_fats * self._fat_size) +
                                   self.root_dir_sectors)
+
+        # Determine FAT type (depends on the number of root directory sectors)
+        self.fat_type = self.__determine_fat_type()
 
         # Check signature
         with self.__lock:
